@@ -174,3 +174,39 @@ def fill_widens_block(rec, params):
         if e['dt'] != a['dt'] and loose(e['vals']) != loose(src['vals']):
             return False
     return True
+
+
+@classifier
+def c15_nonnumeric(rec, params):
+    cs = (rec.get('case') or {}).get('cs') or {}
+    src = cs.get('f') or {}
+    return any(c['dt'][0] in ('O', 'U', 'S', 'M', 'm') for c in src.get('cols', []))
+
+
+def _kinds(rec):
+    cs = (rec.get('case') or {}).get('cs') or {}
+    return cs, [c['dt'][0] for c in (cs.get('f') or {}).get('cols', [])]
+
+
+@classifier
+def c15_object_row_dtype(rec, params):
+    cs, kinds = _kinds(rec)
+    return 'b' in kinds and any(k != 'b' for k in kinds)
+
+
+@classifier
+def c15_all_bool_sum(rec, params):
+    cs, kinds = _kinds(rec)
+    return bool(kinds) and all(k == 'b' for k in kinds) and cs.get('fn') in ('sum', 'prod') and cs.get('axis') == 0
+
+
+@classifier
+def c15_arg_all_nan_line(rec, params):
+    cs, kinds = _kinds(rec)
+    act = rec.get('actual') or {}
+    if cs.get('op') != 'f_arg' or act.get('k') != 'err':
+        return False
+    f = cs['f']
+    na = lambda v: v[0] in ('nan', 'none', 'nat')
+    lines = [c['vals'] for c in f['cols']] if cs['axis'] == 0 else [[c['vals'][i] for c in f['cols']] for i in range(len(f['index']))]
+    return any(line and all(na(v) for v in line) for line in lines)
